@@ -1466,3 +1466,98 @@ pub mod file_lines {
         crate::utils::starts_with_newline(s)
     }
 }
+
+/// Module resolution (`modules.rs`, `parse/session.rs`, `Input::to_directory_ownership`).
+pub mod modules {
+    use std::path::{Path, PathBuf};
+
+    use rustc_span::symbol::Ident;
+
+    use crate::Input;
+    use crate::config::{Config, FileName};
+    use crate::modules::ModResolver;
+    use crate::parse::parser::{DirectoryOwnership, Parser};
+    use crate::parse::session::ParseSess;
+
+    fn own_str(o: &DirectoryOwnership) -> String {
+        match o {
+            DirectoryOwnership::Owned { relative: None } => "owned:-".to_string(),
+            DirectoryOwnership::Owned { relative: Some(i) } => format!("owned:{}", i.as_str()),
+            DirectoryOwnership::UnownedViaBlock => "unowned".to_string(),
+        }
+    }
+
+    fn quiet_config() -> Config {
+        let mut config = Config::default();
+        config.set().show_parse_errors(false);
+        config
+    }
+
+    /// `Input::File(path).to_directory_ownership()`: `none`, `owned:-`, `owned:<name>`.
+    pub fn to_directory_ownership(path: &Path) -> String {
+        rustc_span::create_session_if_not_set_then(
+            rustc_span::edition::Edition::Edition2015,
+            |_| match Input::File(path.to_path_buf()).to_directory_ownership() {
+                None => "none".to_string(),
+                Some(o) => own_str(&o),
+            },
+        )
+    }
+
+    /// `ParseSess::default_submod_path(name, relative, dir)`: the file and the ownership of its
+    /// directory, or `notfound` / `ambiguous` / `other`.
+    pub fn default_submod_path(
+        dir: &Path,
+        name: &str,
+        relative: Option<&str>,
+    ) -> Result<(PathBuf, String), String> {
+        let config = quiet_config();
+        rustc_span::create_session_if_not_set_then(config.edition().into(), |_| {
+            let psess = ParseSess::new(&config).map_err(|e| format!("psess:{e}"))?;
+            let r = psess.default_submod_path(
+                Ident::from_str(name),
+                relative.map(Ident::from_str),
+                dir,
+            );
+            match r {
+                Ok(s) => Ok((s.file_path, own_str(&s.dir_ownership))),
+                Err(e) => Err(match e {
+                    rustc_expand::module::ModError::FileNotFound(..) => "notfound".to_string(),
+                    rustc_expand::module::ModError::MultipleCandidates(..) => {
+                        "ambiguous".to_string()
+                    }
+                    rustc_expand::module::ModError::ParserError(d) => {
+                        d.cancel();
+                        "other".to_string()
+                    }
+                    _ => "other".to_string(),
+                }),
+            }
+        })
+    }
+
+    /// `ModResolver::new(psess, Input::to_directory_ownership or UnownedViaBlock, recursive)
+    /// .visit_crate(parse_crate(root))`: the keys of the file map as they print (no filter of
+    /// `format_project` applied), or `root` (the input does not parse) / the error's message.
+    pub fn file_map_keys(root: &Path, recursive: bool) -> Result<Vec<String>, String> {
+        let config = quiet_config();
+        rustc_span::create_session_if_not_set_then(config.edition().into(), |_| {
+            let psess = ParseSess::new(&config).map_err(|e| format!("psess:{e}"))?;
+            let input = Input::File(root.to_path_buf());
+            let ownership = input
+                .to_directory_ownership()
+                .unwrap_or(DirectoryOwnership::UnownedViaBlock);
+            let krate = Parser::parse_crate(input, &psess).map_err(|_| "root".to_string())?;
+            let map = ModResolver::new(&psess, ownership, recursive)
+                .visit_crate(&krate)
+                .map_err(|e| e.to_string())?;
+            Ok(map
+                .keys()
+                .map(|k| match k {
+                    FileName::Real(p) => p.to_string_lossy().into_owned(),
+                    FileName::Stdin => "<stdin>".to_string(),
+                })
+                .collect())
+        })
+    }
+}
